@@ -579,6 +579,69 @@ fn random_repl(out: &Arc<Shared>, run_id: u64, seed: u64, len: u64, max: usize) 
     }
 }
 
+/// One survival cell of `RandomReplacement`: `trials` executions on the same parents / offspring
+/// (unique tags, ranks from the universe) with the same mu, the generator of the state running on.
+/// Which individuals survive is in the recorded stacks; the frequencies are judged by the spec.
+fn repl_cell(out: &Arc<Shared>, run_id: u64, seed: u64, par: usize, off: usize, mu: u64, trials: u64) {
+    let mut r = rng(seed, run_id);
+    let u = universe(&mut r, par + off);
+    let mut inds = u.inds.clone();
+    inds.shuffle(&mut r);
+    let pop = |xs: &[(u32, i64)]| Value::Array(xs.iter().map(|(t, k)| json!([t, k])).collect());
+    let stack = json!([pop(&inds[..par]), pop(&inds[par..])]);
+    let hdr = Hdr::parse(&hdr_json(&u, r.gen(), &mut r));
+    out.out.lock().unwrap().emit(&reset_rec(run_id, &hdr));
+    let mut run = start_run(hdr);
+    for j in 0..trials as usize {
+        emit_step(out, run_id, 2 * j, &mut run, &act_st("load", stack.clone()));
+        let mut a = act("random_repl", mu, 0);
+        a["pc"] = json!("cell");
+        a["lo"] = json!(trials);
+        a["last"] = json!((j as u64 + 1 == trials) as u64);
+        emit_step(out, run_id, 2 * j + 1, &mut run, &a);
+    }
+}
+
+/// Survival cells: a single survivor, all but one, small and large fractions, every split of the
+/// individuals between parents and offspring (one side empty, one side a single individual),
+/// mu = 0 / mu = n / mu > n (nothing random left: short cells), then seeded random shapes.
+fn random_repl_cells(out: &Arc<Shared>, first_run: u64, seed: u64, trials: u64, extra: u64) {
+    let fixed: [(usize, usize, u64); 14] = [
+        (5, 5, 1),
+        (6, 4, 3),
+        (4, 4, 7),
+        (0, 6, 2),
+        (6, 0, 2),
+        (1, 7, 4),
+        (7, 1, 1),
+        (3, 3, 3),
+        (2, 2, 1),
+        (1, 1, 1),
+        (2, 9, 10),
+        (3, 3, 6),
+        (3, 3, 9),
+        (4, 2, 0),
+    ];
+    let mut run_id = first_run;
+    for (par, off, mu) in fixed {
+        let random_part = mu > 0 && (mu as usize) < par + off;
+        repl_cell(out, run_id, seed, par, off, mu, if random_part { trials } else { (trials / 10).max(10) });
+        run_id += 1;
+    }
+    let mut r = rng(seed, 4242);
+    for _ in 0..extra {
+        let (par, off) = loop {
+            let (p, o) = (r.gen_range(0..=8usize), r.gen_range(0..=8usize));
+            if p + o >= 2 {
+                break (p, o);
+            }
+        };
+        let mu = r.gen_range(1..(par + off) as u64);
+        repl_cell(out, run_id, seed, par, off, mu, trials);
+        run_id += 1;
+    }
+}
+
 /// Evolutionary loop on one stack: select from the top population, replace (parents, selection).
 fn random_loop(out: &Arc<Shared>, run_id: u64, seed: u64, len: u64, max: usize) {
     let mut r = rng(seed, run_id);
@@ -738,6 +801,7 @@ pub fn main(args: &Args) -> usize {
                     for k in 0..(runs / 2).max(1) {
                         random_loop(&out, 20_000 + k, seed, len, max);
                     }
+                    random_repl_cells(&out, 30_000, seed, args.num("trials", 400), args.num("cells", 4));
                 }
                 "sa" => {
                     let next = random_sa_cells(&out, 0, seed, args.num("trials", 400), args.num("full", 0) == 1);
